@@ -1136,6 +1136,16 @@ func (vc *VC) strConst(s string) T {
 	return t
 }
 
+// strCat: string concatenation as an uninterpreted function of the two operands (so that contracts can name the
+// same value as the code); only its length is axiomatised.
+func (vc *VC) strCat(pc, a, b T) T {
+	vc.strFuns()
+	vc.declareFun("gv_strcat", []string{SortRef, SortRef}, SortRef)
+	r := app("gv_strcat", a, b)
+	vc.assume(pc, Eq(vc.strLen(r), app("bvadd", vc.strLen(a), vc.strLen(b))))
+	return r
+}
+
 func (vc *VC) strLen(sid T) T {
 	vc.strFuns()
 	if sid == BV(0, 64) {
